@@ -42,7 +42,7 @@ loopvars == <<trials, i, stop, cbA, cbB, raised, phase, done>>
 \* ------------------------------------------------------------------ outcomes and feasibility
 ScalarOK  == {"float", "int", "bool", "numstr", "inf", "neginf", "neg", "bytes"}
 ScalarBad == {"none", "nan", "badstr", "hugeint", "badobj", "hostile"}
-ListOK    == {"list_ok", "list_numstr"}
+ListOK    == {"list_ok", "list_numstr", "list_infs"}
 ListBad   == {"list_short", "list_long", "list_nan_first", "list_nan_last", "list_badelem", "list_hugeint"}
 RetKinds  == ScalarOK \cup ScalarBad \cup ListOK \cup ListBad
 RaiseKinds == {"E1", "E2", "KI", "pruned"}
@@ -65,6 +65,7 @@ Floats(kind, nobj) ==
     [] kind = "bytes"  -> {<<"5.0">>, <<"53.0">>}
     [] kind = "list_ok"     -> {[j \in 1..nobj |-> ListVal[j]]}
     [] kind = "list_numstr" -> {[j \in 1..nobj |-> IF j = nobj THEN "5.0" ELSE ListVal[j]]}
+    [] kind = "list_infs"   -> {[j \in 1..nobj |-> IF j % 2 = 1 THEN "inf" ELSE "-inf"]}      \* infinities of both signs
     [] OTHER -> {}
 
 NoValues == <<>>
